@@ -73,7 +73,7 @@ def load_form(xml: bytes, prefix, root, form: int):
     if form == 0:
         return load_bytes(xml, prefix, root)
     import pathlib
-    path = os.path.join(VERIF_ROOT, ".work", f"c16_{os.getpid()}.xml")
+    path = os.path.join(VERIF_ROOT, ".work", f"c16 [x]%s{{0}}_{os.getpid()}.xml")   # the path is a label: brackets, % and braces mean nothing
     os.makedirs(os.path.dirname(path), exist_ok=True)
     with open(path, "wb") as f:
         f.write(xml)
